@@ -15,7 +15,8 @@ RULE = ('exhaustive: every (gender, event) row of the scoring table x every inte
 ASSUMPTIONS = ['athlon_score itself is checked against the exact formula by C01; here it is used as '
                'the forward function of the round trip, as the property states']
 
-UNKNOWN = [('M', 'XYZ'), ('X', '100'), ('F', '110H'), ('M', '100H'), ('', ''), ('m', 'hj ')]
+UNKNOWN = [('M', 'XYZ'), ('X', '100'), ('F', '110H'), ('M', '100H'), ('', ''), ('m', 'hj '), ('M', 'NA'), ('?', '100'),
+           ('M', '100-Y'), ('M', 'M-100'), ('U-20', '100'), ('F', 'PEN-I'), ('M-', '100'), ('M', '-100'), ('F', '600'), ('M', '%s')]
 TIMED_WORSE = +1
 FIELD_WORSE = -1
 
@@ -57,6 +58,16 @@ def examine(case):
         if r != ('ret', None):
             out.append(V('unknown-pair-gives-none', ['unknown', r[0], r[1] if r[0] == 'exc' else 'value'],
                          case, r, None))
+        # the forward function of the round trip gives no answer for the pair either - at any age
+        for age in (None, 20, 50):
+            if (g, e) in (('M', '100H'), ('M', '80H'), ('F', '80H')):
+                break          # veterans' hurdles: scored as 110H / 100H by the forward function, no row for the inverse
+            kw = {} if age is None else {'age': age}
+            r2 = call(athlib.athlon_score, g, e, 12.5, **kw)
+            if r2 != ('ret', None):
+                out.append(V('unknown-pair-gives-none', ['unknown', 'score', r2[1] if r2[0] == 'exc' else 'value',
+                                                         'age' if kw else 'noage'], dict(case, age=age), r2, None))
+                break
         return out
     if r[0] == 'exc':
         return [V('needed-returns', ['needed-raises', r[1]], case, r, 'a mark')]
